@@ -92,8 +92,11 @@ def get_parser_by_name(docformat: str, obj: Optional['Documentable'] = None) -> 
         or it could be that the docformat name do not match any know L{pydoctor.epydoc.markup} submodules.
     """
     mod = import_module(f'pydoctor.epydoc.markup.{docformat}')
-    # We can safely ignore this mypy warning, since we can be sure the 'get_parser' function exist and is "correct".
-    return mod.get_parser(obj) # type:ignore[no-any-return]
+    get_parser = getattr(mod, 'get_parser', None)
+    if get_parser is None:
+        # A helper module of the package (like '_types'), not a docformat.
+        raise ImportError(f'pydoctor.epydoc.markup.{docformat} does not provide a parser')
+    return get_parser(obj) # type:ignore[no-any-return]
 
 def processtypes(parse:ParserFunction) -> ParserFunction:
     """
